@@ -200,6 +200,8 @@ func init() {
 		in.quiesce(c.g)
 		return nil
 	}
+	// vYield: the caller lets every other goroutine run until it blocks (natively a short sleep)
+	rtIntrinsics["vYield"] = rtIntrinsics["vQuiesce"]
 	mkZ := func(marker byte) intrinsic {
 		return func(in *Interp, c *callCtx) Value {
 			raw := in.sliceBytes(c.args[0].(SliceV))
